@@ -42,6 +42,7 @@ class Prop(BaseProp):
                 res.count("second_input_excluded_by_pattern")
                 res.nontrivial = True
         res.see("input_spelling", "absolute" if os.path.isabs(c.argv[0]) else "relative")
+        res.see("working_directory", getattr(c, "cwd_kind", "parent"))
         if not o.ok:
             res.violate(o.crash_class() or f"exit:{o.exit_code}", f"{str(o.exc)[:200]}", wit)
             return
@@ -151,7 +152,8 @@ class Prop(BaseProp):
     def check_observed(self, merged, tier):
         o = merged["obs"]
         out = [f"{k} < 20" for k in self.HEADLINE if o.get(k, 0) < 20]
-        need = {"name-file", "name-dir", "glob", "dir-slash", "starstar", "abs-file", "abs-dir", "all-cmake-of-dir", "everything"}
+        need = {"name-file", "name-dir", "glob", "dir-slash", "starstar", "abs-file", "abs-dir", "all-cmake-of-dir", "everything",
+                "name-at-several-depths"}
         if need - set(merged["sets"].get("pattern_forms", [])):
             out.append(f"pattern forms never generated: {sorted(need - set(merged['sets'].get('pattern_forms', [])))}")
         return out
